@@ -239,7 +239,7 @@ class Fn:
             keys = []
             for _ in range(3):
                 keys = sorted(k for k in phi["seen"] if k[0] == self.key)
-                if len(keys) != len(phi["seen"]) or not keys or len(keys) > 3:
+                if len(keys) != len(phi["seen"]) or not keys or len(keys) > 5:
                     keys = []
                     break
                 before = dict(phi["seen"])
@@ -253,7 +253,7 @@ class Fn:
             n_comb = 1
             for k in keys:
                 n_comb *= phi["seen"][k]
-            if n_comb > 36:
+            if n_comb > 96:
                 continue
             arms = {}
             for combo in itertools.product(*[range(phi["seen"][k]) for k in keys]):
@@ -386,8 +386,16 @@ class Fn:
         if b in switches:
             idxs, arms = switches[b]
             combo = tuple(st2[i] for i in idxs)
-            if None not in combo and combo in arms:
-                succ = [s_ for s_ in succ if s_ == arms[combo]]
+            # definitions not executed on this path are unconstrained: prune when every combination
+            # consistent with what is known agrees on the arm
+            cands = {tgt for c_, tgt in arms.items() if all(k_ is None or k_ == x_ for k_, x_ in zip(combo, c_))}
+            full = len([c_ for c_ in arms if all(k_ is None or k_ == x_ for k_, x_ in zip(combo, c_))])
+            need = 1
+            for i_, k_ in zip(idxs, combo):
+                if k_ is None:
+                    need *= len(locs[i_][1])
+            if len(cands) == 1 and full == need and any(k_ is not None for k_ in combo):
+                succ = [s_ for s_ in succ if s_ in cands]
         return st2, succ
 
     def reachable(self, start=0, cut_blocks=(), cut_edges=(), _state=None):
